@@ -47,7 +47,7 @@ class Arr(list):
         raise ValueError('the truth value of an Arr is ambiguous')
 '''
 
-KINDS = ['assign', 'print', 'print2', 'expr', 'printexpr', 'none', 'multi', 'compound', 'def', 'semicolon', 'expr_wild', 'expr_arr']
+KINDS = ['assign', 'print', 'print2', 'expr', 'printexpr', 'none', 'multi', 'compound', 'def', 'semicolon', 'expr_wild', 'expr_arr', 'expr_words']
 # the richer statement grammar of the C01 program generator (C01, C18, C19, C20)
 MORE_KINDS = ['await_expr', 'unawaited_coro', 'esc_literal', 'augassign', 'for', 'while', 'with', 'try', 'decodef', 'class', 'literal_comment', 'triple', 'triple_unprefixed', 'triple_blank', 'triple_unprefixed_blank', 'bracket_blank', 'triple_trailing_ws', 'triple_late_unprefixed',
               'import', 'comment', 'async_await', 'async_for', 'async_with']
@@ -84,6 +84,11 @@ class Stmt:
             self.lines = ['Wild(t(%d))' % k]
             self.is_expr = True
             self.val = 'Wild(%d)' % k
+        elif kind == 'expr_words':
+            # quoted words with letters outside ASCII, one of them ending in a letter that is also a string-prefix letter
+            self.lines = ["['sn\xe9b', 'kr\xfcu', t(%d)]" % k]
+            self.is_expr = True
+            self.val = "['sn\xe9b', 'kr\xfcu', %d]" % k
         elif kind == 'expr_arr':
             self.lines = ['Arr([t(%d)])' % k]
             self.is_expr = True
@@ -251,7 +256,7 @@ def correct_wants(stmts, lo, j):
     return out
 
 
-CORRUPTIONS = ['replaced', 'appended', 'prepended', 'dropped']
+CORRUPTIONS = ['replaced', 'appended', 'prepended', 'dropped', 'letter_dropped']
 
 
 def corrupt(text, how):
@@ -266,6 +271,15 @@ def corrupt(text, how):
         if len(lines) < 2:
             return None
         return '\n'.join(lines[:-1])
+    if how == 'letter_dropped':
+        # one letter or digit missing INSIDE a word (so it cannot be a string-prefix letter, which stands at a word start):
+        # preferably the one directly in front of a quote
+        cand = [i for i in range(1, len(text)) if text[i].isalnum() and text[i - 1].isalnum()]
+        if not cand:
+            return None
+        pref = [i for i in cand if i + 1 < len(text) and text[i + 1] in '\'"']
+        i = pref[0] if pref else cand[-1]
+        return text[:i] + text[i + 1:]
     raise KeyError(how)
 
 
